@@ -13,6 +13,10 @@ Definition tol_abs : Q := 1 # 1000000000000000.    (* 1e-15 *)
 Definition qnear (a b : Q) : bool :=
   let d := Qabs (a - b) in
   Qle_bool d tol_abs || Qle_bool d (tol_rel * Qmax (Qabs a) (Qabs b)).
+(* table KEYS (wavelengths in metres, ~1e-6): relative nearness only -- the absolute tolerance above (1e-15) is coarser than the
+   difference between two distinct wavelengths (an explicit idler of 966.152 nm and the energy-conserving 966.15200083 nm are
+   8.3e-16 m apart) and made the lookup return the answer recorded for the other beam *)
+Definition qnear_key (a b : Q) : bool := Qle_bool (Qabs (a - b)) (tol_rel * Qmax (Qabs a) (Qabs b)).
 (* angles: equal modulo one turn *)
 Definition anear (a b : Q) : bool :=
   qnear a b || qnear (a + 2 * Qpi) b || qnear a (b + 2 * Qpi).
@@ -40,12 +44,12 @@ Record otable := {
 Fixpoint find_snell (l : list (Q * Q * option Q)) (w e : Q) : option Q :=
   match l with
   | [] => Some sentinel
-  | (w', e', r) :: rest => if qnear w w' && qnear e e' then r else find_snell rest w e
+  | (w', e', r) :: rest => if qnear_key w w' && qnear e e' then r else find_snell rest w e
   end.
 Fixpoint find_waist (l : list (Q * polarization * option Q)) (w : Q) (p : polarization) : option Q :=
   match l with
   | [] => Some sentinel
-  | (w', p', r) :: rest => if qnear w w' && pol_eqb p p' then r else find_waist rest w p
+  | (w', p', r) :: rest => if qnear_key w w' && pol_eqb p p' then r else find_waist rest w p
   end.
 
 Fixpoint args_near (a b : list Q) : bool :=
